@@ -77,6 +77,8 @@ func NewSecureAsk[Pub any](m map[string]DynSecureAskSwarm[Pub]) p2p.SecureAskSwa
 		if err := ma.serveLoops(ctx); err != nil && !errors.Is(err, p2p.ErrClosed) {
 			logctx.Errorln(ctx, err)
 		}
+		// the transports are gone: release callers blocked in ServeAsk
+		ma.asks.CloseWithError(p2p.ErrClosed)
 	}()
 	return p2p.ComposeSecureAskSwarm[Addr, Pub](ms, ma, msec)
 }
